@@ -34,7 +34,7 @@ def traces_of(events):
     """-> [(schema, [trace, ...], [model id, ...])] grouped by schema; one trace per metamodel"""
     by_fp = {}
     for e in events:
-        if e['op'] == 'TracerError':
+        if e['op'] == 'TracerError' or 'loader' in e:
             continue
         fp = e.pop('fingerprint')
         by_fp.setdefault(fp, {}).setdefault(e['model'], []).append(e)
@@ -55,6 +55,42 @@ def traces_of(events):
             ids.append(mid)
         out.append((schema, trs, ids))
     return out
+
+
+def loader_traces(events):
+    """-> traces for LoadIOTrace.tla, one per loader object"""
+    by = {}
+    for e in events:
+        if 'loader' in e:
+            by.setdefault(e['loader'], []).append({'op': e['op'], 'res': e['res'], 'n': e['n'], 'twin': True})
+    return list(by.values())
+
+
+def check_loader(rep, tier):
+    """C12 on the repository's own tests: every input() / build_metamodel() call made while the tests run is an action of
+    LoadIO.tla (documented outcome, a rejected input leaves the number of statements unchanged)"""
+    paths = [os.path.join(common.REPO, 'tests', 'test_xtuml')]
+    if tier != 'quick':
+        paths.append(os.path.join(common.REPO, 'tests', 'test_bridgepoint'))
+    events, last = record(paths)
+    if not events or 'passed' not in last:
+        raise common.MachineryError('the repository tests did not run under the hooks: %s (%d events)' % (last, len(events)))
+    trs = loader_traces(events)
+    verdicts, st = trace.validate('LoadIOTrace', 'CONSTANTS\n  MaxStmts = 0\n', trs, modules=['LoadIO', 'LoadIOTrace', 'TraceBase'])
+    outcomes = {}
+    ok = 0
+    for v in verdicts:
+        for e in v.trace:
+            k = '%s/%s' % (e['op'], e['res'])
+            outcomes[k] = outcomes.get(k, 0) + 1
+        if v.ok:
+            ok += 1
+        else:
+            e = v.event()
+            rep.failure({'source': 'repository tests under hooks', 'op': e['op'], 'res': e['res'], 'clause': v.clause},
+                        {'source': 'hooks', 'trace': v.trace[:v.step], 'step': v.step, 'clause': v.clause,
+                         'spec_expected': repr(v.expected)[:1000]})
+    return {'pytest': last, 'loaders_traced': len(trs), 'traces_accepted': ok, 'steps': st['steps'], 'calls_per_outcome': outcomes}
 
 
 def _validate_group(g):
